@@ -102,7 +102,7 @@ def gen_cases(ctx, n_cases, gen, depth_max, bound=2 ** 20, accept=None):
             elif w_ < 0.7 and "Prod" in gen.kinds:
                 t = dict(k="Prod", ms=[gen.tree(0, (rnd.randint(1, 3), m_)), t])
         elif rnd.random() < 0.05:
-            t = T.near_real_tree(gen, rnd)
+            t = T.near_real_tree(gen, rnd) if rnd.random() < 0.5 else T.near_sym_tree(gen, rnd)
             if rnd.random() < 0.5 and {"Transp", "Adj"} & set(gen.kinds):
                 t = dict(k=rnd.choice([w for w in ("Transp", "Adj") if w in gen.kinds]), a=t)
         elif rnd.random() < 0.08:   # wide operators: the generic to_dense path multiplies the identity on the left
